@@ -14,6 +14,7 @@ import (
 	"github.com/saucelabs/forwarder"
 	"github.com/saucelabs/forwarder/ruleset"
 	"github.com/saucelabs/forwarder/verifharness/lib"
+	"github.com/saucelabs/forwarder/verifharness/wiring"
 )
 
 // world: the scripted listeners of one configuration.
@@ -406,6 +407,7 @@ func main() {
 	run.Floor("via_socks5", 15)
 	run.Floor("direct_routes", 100)
 	run.Floor("dead_hop_checked", 10)
+	wiring.Run(run, "C05")
 	run.Finish()
 }
 
